@@ -142,14 +142,14 @@ def fn_is_cast(atom):
     return (atom_fn(atom) or "").startswith("cast_")
 
 
-def exits(tracer, ret):
+def exits(tracer, ret, total=False):
     """the ways a traced function returns: [(path condition as a frozenset of canonical (cond, polarity), value)], with early
     `return`s and a conditional final value (if / else at the end) treated alike"""
     from .symx import canon_cond
     out = []
 
     def canon(gs):
-        return frozenset((repr(canon_cond(g, p)[0]), canon_cond(g, p)[1]) for g, p in gs if isinstance(g, Poly))
+        return frozenset((repr(canon_cond(g, p, total)[0]), canon_cond(g, p, total)[1]) for g, p in gs if isinstance(g, Poly))
     early = []
     for e in tracer.events:
         if e.callee == "<return>" and not e.loops:
@@ -159,8 +159,13 @@ def exits(tracer, ret):
         a = single_atom(v) if isinstance(v, Poly) else None
         if a and atom_fn(a) == "ite":
             c, tv, fv = atom_args(a)
-            split(tv, gs + [(c, True)])
-            split(fv, gs + [(c, False)])
+            unp = lambda k: k[1] if isinstance(k, tuple) and len(k) == 2 and k[0] == "P" else k
+            split(unp(tv), gs + [(c, True)])
+            split(unp(fv), gs + [(c, False)])
+        elif a and atom_fn(a) == "match" and isinstance(atom_args(a)[0], Poly):
+            subj, arms = atom_args(a)
+            for k, av in arms:
+                split(av[1] if isinstance(av, tuple) and len(av) == 2 and av[0] == "P" else av, gs + [(app("matches", subj, k), True)])
         else:
             out.append((canon(gs), v))
     # the final value is reached when no early return was taken: under the negation of a single-condition early return
